@@ -81,6 +81,16 @@ def run(ctx):
         add_groups(names2, rot)
     add_groups(names3, 0)
     add_groups(randn, 0)
+    # the same names on statements with depfile = $out.d and rspfile = $out.rsp (ninja expands those unescaped, for itself,
+    # before it expands the command for the shell)
+    for i in range(0, len(names3), 16 * 5):
+        gg = list(dict.fromkeys(names3[i:i + 6]))
+        if len(gg) >= 2:
+            groups.append(("d", rng.randint(0, len(gg) - 1), gg))
+    for i in range(0, len(randn), 16 * 3):
+        gg = list(dict.fromkeys(randn[i:i + 5]))
+        if len(gg) >= 2:
+            groups.append(("d", rng.randint(0, len(gg) - 1), gg))
     # $in_newline with a single input (a newline inside a command line is the shell's separator,
     # so multi-name $in_newline only makes sense in response files)
     for nm in names1 + names3[::3] + randn[::4] + names2[ctx.seed % 16::16]:
@@ -112,7 +122,16 @@ def run(ctx):
                           err.decode("latin-1")[-2500:])
             return
         out += o
-    cmds = [bytes.fromhex(l) if not l.startswith("ERR") else None for l in out.decode().splitlines()]
+    extra_fields = {}
+    cmds = []
+    for li, l in enumerate(out.decode().splitlines()):
+        if l.startswith("ERR"):
+            cmds.append(None)
+            continue
+        f = l.split(" ")
+        cmds.append(bytes.fromhex(f[0]))
+        if len(f) > 1:
+            extra_fields[li] = [bytes.fromhex(x) for x in f[1:]]
     if len(cmds) != len(groups):
         raise core.Inconclusive("probe produced %d lines for %d groups" % (len(cmds), len(groups)))
     with ThreadPoolExecutor(max_workers=util.NCPU) as ex:
@@ -122,13 +141,21 @@ def run(ctx):
                 "$out, %d rotations; $in_newline with one input. distinct_nontrivial = distinct names that need "
                 "quoting and came back as exactly one equal word" % (len(special), nrand, len(rotations)))
     seen_names = set()
-    for (mode, nin, g), cmd, sr in zip(groups, cmds, shres):
+    for gi, ((mode, nin, g), cmd, sr) in enumerate(zip(groups, cmds, shres)):
         if cmd is None or sr is None:
             ctx.inconclusive += 1
             continue
         ctx.evaluations += 1
         rc, so, se = sr
-        exp = (g[:nin] + [b"--"] + g[nin:]) if mode == "c" else g
+        if mode == "d":
+            ctx.count("statements_with_out_derived_depfile_and_rspfile")
+            df, rf, df2 = extra_fields.get(gi, [None, None, None])
+            want = b" ".join(g[nin:])
+            if df != want + b".d" or rf != want + b".rsp" or df2 != df:
+                ctx.violation("C16/unescaped-path-binding", "depfile = $out.d / rspfile = $out.rsp for outputs %r evaluate to %r / %r (again: %r)" %
+                              ([util.show(x) for x in g[nin:]], df, rf, df2), {"mode": mode, "nin": nin, "names_hex": [x.hex() for x in g]})
+                continue
+        exp = (g[:nin] + [b"--"] + g[nin:]) if mode in ("c", "d") else g
         toks = so.decode().split()
         got = [b"" if t == "-" else bytes.fromhex(t) for t in toks]
         if rc != 0 or got != exp:
@@ -146,14 +173,14 @@ def run(ctx):
         ctx.count("argv_equal")
         # verbatim rule
         if all(SAFE.match(x) for x in g):
-            want = tool.encode() + b" " + (b" ".join(g[:nin]) + b" -- " + b" ".join(g[nin:]) if mode == "c" else g[0])
+            want = tool.encode() + b" " + (b" ".join(g[:nin]) + b" -- " + b" ".join(g[nin:]) if mode in ("c", "d") else g[0])
             ctx.count("verbatim_checked")
             if cmd != want:
                 ctx.violation("C16/not-verbatim", "safe names quoted: %r" % util.show(cmd))
         for x in g:
             if not SAFE.match(x):
                 seen_names.add(x)
-            elif mode == "c":
+            elif mode in ("c", "d"):
                 # a safe name must appear unquoted even among unsafe neighbours
                 if not re.search(rb"(^| )" + re.escape(x) + rb"( |$)", cmd):
                     ctx.violation("C16/not-verbatim", "safe name %r quoted in %r" % (x, util.show(cmd)))
